@@ -261,6 +261,11 @@ pub fn gen_conv(rng: &mut Rng) -> Op {
 
 pub fn gen_query(rng: &mut Rng, faults: bool) -> Op {
     let (a, b) = (slot(rng), slot(rng));
+    if rng.chance(1, 4) {
+        // comparisons across number types
+        let k = rng.pick(&["xc.fi", "xc.di", "xc.fd", "xc.rf", "xc.ri", "xc.prim"]);
+        return Op::new(k).a(a).b(b).n(prim_value(rng).0).m(rng.below(1 << 30) as i64);
+    }
     let t = if rng.chance(1, 2) { "u" } else { "i" };
     match rng.below(5) {
         0 | 1 => Op::new(&format!("{}.query", t)).a(a).b(b).n(rng.below(5000) as i64),
